@@ -124,7 +124,9 @@ class Node(object):
         # sometimes we change values in the tree and we know that we will need
         # to update if another node tries to access a given value (say weight).
         # This avoid calling the update until it is actually needed.
-        self.root.stale = False
+        # (a node that joins an existing tree leaves that tree's flag alone)
+        if self.root is self:
+            self.stale = False
 
         # helper vars
         self._price = 0
@@ -675,6 +677,8 @@ class StrategyBase(Node):
         self.setup(self.parent._original_data, **all_kwargs)
         if self.name not in self.parent._universe:
             self.parent._universe[self.name] = np.nan
+        # the tree has a new member: the next read refreshes it
+        self.root.stale = True
 
     def get_data(self, key):
         """
